@@ -369,6 +369,11 @@ pub fn check_c03(cx: &Ctx, ix: &Index, sc: &mut SigCache) -> Report {
                 Kind::Core(CE::Process { digest, round, .. }) => {
                     // Evidence only: which rejecting branches of the voting rule were exercised.
                     if let Some(b) = ix.blocks.get(digest) {
+                        if b.qc.round >= b.round && b.tc.as_ref().map_or(false, |t| t.round + 1 == b.round) && !votes_by_round.keys().any(|v| v >= round) {
+                            // votable by every rule except "the QC is of a lower round than the block"
+                            r.sit("C03:qc_not_below_round_offered");
+                            r.count("C03.offered_block_whose_qc_is_not_of_a_lower_round", 1);
+                        }
                         if *round < cur_round {
                             r.sit("C03:stale_round_proposal_processed");
                         } else if *round > cur_round {
@@ -612,8 +617,21 @@ pub fn check_c04(cx: &Ctx, ix: &Index, sc: &mut SigCache) -> Report {
                     cur = None;
                     effects.clear();
                 }
-                Kind::Core(CE::Vote { .. })
-                | Kind::Core(CE::Timeout { .. })
+                Kind::Core(CE::Vote { block, round, .. }) => {
+                    // Whatever path a proposal took to the voting step (handler, payload-resumed,
+                    // sync-resumed), it must be one that passes the independent validity check.
+                    r.count("C04.voted_blocks_rechecked", 1);
+                    if !crate::model::block_valid(cx.topo, sc, block) {
+                        r.violate(
+                            "C04",
+                            "voted-for-invalid-proposal",
+                            format!("node {} voted for a round-{} proposal whose signature or embedded certificates do not verify", node, round),
+                            wit(cx, &[*p]),
+                        );
+                    }
+                    effects.push(*p)
+                }
+                Kind::Core(CE::Timeout { .. })
                 | Kind::Core(CE::Round { .. })
                 | Kind::Core(CE::QC { .. })
                 | Kind::Core(CE::TC { .. })
@@ -896,8 +914,11 @@ pub fn check_c05_c10_c19(cx: &Ctx, ix: &Index, sc: &mut SigCache) -> Report {
                         if let Some(pb) = problem {
                             r.violate("C19", "assembled-qc-unjustified", format!("node {} assembled QC ({}, r{}): {}", i, short(&qc.hash), qc.round, pb), wit(cx, &[pos]));
                         }
-                        k.qcs.insert(key, ());
-                        k.qc_rounds.insert(qc.round);
+                        // C10: only a certificate that verifies counts as "holding a QC for the round".
+                        if qc_valid(t, sc, qc).is_ok() {
+                            k.qcs.insert(key, ());
+                            k.qc_rounds.insert(qc.round);
+                        }
                     }
                     CE::TC { tc, .. } => {
                         r.count("C19.assembled_tcs_checked", 1);
@@ -933,7 +954,10 @@ pub fn check_c05_c10_c19(cx: &Ctx, ix: &Index, sc: &mut SigCache) -> Report {
                         if let Some(pb) = problem {
                             r.violate("C19", "assembled-tc-unjustified", format!("node {} assembled TC r{}: {}", i, tc.round, pb), wit(cx, &[pos]));
                         }
-                        k.tc_rounds.insert(tc.round);
+                        // C10: only a certificate that verifies counts as "holding a TC for the round".
+                        if tc_valid(t, sc, tc).is_ok() {
+                            k.tc_rounds.insert(tc.round);
+                        }
                     }
                     CE::Commit { block, .. } => {
                         if block.round == 0 {
